@@ -71,7 +71,20 @@ def main(argv=None):
                 payload = json.load(f)
             res = mod.replay(ctx, payload)
         else:
-            res = mod.run(ctx)
+            try:
+                res = mod.run(ctx)
+            except common.ToolFailure:
+                raise
+            except Exception as e:  # noqa: BLE001
+                if not touched:
+                    raise
+                # The harness itself tripped over the behaviour of code that differs from the tree it was built on (its
+                # own bookkeeping assumes what the frozen tree does).  That is no tool failure: the correspondence between
+                # the model/harness and this code could not be established.
+                res = common.Result()
+                res.mismatches.append(dict(op="harness-run", impl="the check's own run raised %r on the changed code" % (e,),
+                                           model="completes on the tree the check was frozen on",
+                                           traceback=traceback.format_exc()[-1500:]))
         if touched:
             res.extra["anchored_functions_changed_since_freeze"] = touched
         exit_code = 0
@@ -103,7 +116,15 @@ def main(argv=None):
             found = []
             if hasattr(mod, "search"):
                 ctx.search_mode = True
-                sres = mod.search(ctx, res)
+                try:
+                    sres = mod.search(ctx, res)
+                except common.ToolFailure:
+                    raise
+                except Exception as e:  # noqa: BLE001
+                    if not touched:
+                        raise
+                    sres = common.Result()
+                    why.append("search run raised %r on the changed code" % (e,))
                 for v in sres.violations:
                     if common.match_known(prop, v) is None:
                         found.append(v)
